@@ -151,7 +151,7 @@ pub struct CaseOut {
   pub case_ty: String,
   pub obs_ty: String,
   pub per_shard: usize,
-  items: Vec<(usize, String, String)>,
+  items: Vec<(usize, String, String, String)>,
   tags: BTreeMap<String, u64>,
   distinct: std::collections::BTreeSet<u64>,
   nontrivial: std::collections::BTreeSet<u64>,
@@ -187,6 +187,20 @@ impl CaseOut {
   }
   /// `nontrivial`: the case exercised a non-default branch by the property's stated rule.
   pub fn push(&mut self, idx: usize, case: String, obs: String, tags: &[String], nontrivial: bool) {
+    self.push_kf(idx, case, obs, tags, nontrivial, "");
+  }
+  /// As `push`, with the name of the known-finding class (known_findings.json) this case belongs
+  /// to syntactically ("" = none).  Only an oracle failure of a case in a listed class is
+  /// reported as KNOWN-FINDING instead of VIOLATION.
+  pub fn push_kf(
+    &mut self,
+    idx: usize,
+    case: String,
+    obs: String,
+    tags: &[String],
+    nontrivial: bool,
+    kf: &str,
+  ) {
     let h = fnv(&case) ^ fnv(&obs).rotate_left(17);
     self.distinct.insert(h);
     if nontrivial {
@@ -195,7 +209,7 @@ impl CaseOut {
     for t in tags {
       *self.tags.entry(t.clone()).or_insert(0) += 1;
     }
-    self.items.push((idx, case, obs));
+    self.items.push((idx, case, obs, kf.to_string()));
   }
   pub fn tag(&mut self, t: &str) {
     *self.tags.entry(t.to_string()).or_insert(0) += 1;
@@ -205,20 +219,20 @@ impl CaseOut {
   }
   pub fn finish(self) -> i32 {
     let mut txt = fs::File::create(self.dir.join("cases.txt")).unwrap();
-    for (idx, c, o) in &self.items {
-      writeln!(txt, "{}\t{}\t{}", idx, c, o).unwrap();
+    for (idx, c, o, kf) in &self.items {
+      writeln!(txt, "{}\t{}\t{}\t{}", idx, c, o, kf).unwrap();
     }
     let mut shard = 0;
     for chunk in self.items.chunks(self.per_shard.max(1)) {
       let mut f = fs::File::create(self.dir.join(format!("shard_{}.v", shard))).unwrap();
       writeln!(f, "{}", self.header).unwrap();
-      for (idx, c, o) in chunk {
+      for (idx, c, o, _) in chunk {
         writeln!(f, "Definition c_{} : {} := {}.", idx, self.case_ty, c).unwrap();
         writeln!(f, "Definition o_{} : {} := {}.", idx, self.obs_ty, o).unwrap();
       }
       let l: Vec<String> = chunk
         .iter()
-        .map(|(idx, _, _)| format!("({}%N, c_{}, o_{})", idx, idx, idx))
+        .map(|(idx, _, _, _)| format!("({}%N, c_{}, o_{})", idx, idx, idx))
         .collect();
       writeln!(
         f,
@@ -251,7 +265,7 @@ impl CaseOut {
       .iter()
       .step_by(step)
       .take(5)
-      .map(|(idx, c, o)| {
+      .map(|(idx, c, o, _)| {
         format!(
           "{{\"index\": {}, \"case\": {}, \"impl_obs\": {}}}",
           idx,
